@@ -45,6 +45,7 @@ class Ctx:
     def __init__(self, c, seed):
         self.c = c
         self.comp0 = cfg.make_computer(c)
+        computers.poison(self.comp0)  # np.empty buffers of a fresh instance are arbitrary
         L, S = self.comp0.frame_length, self.comp0.frame_shift
         self.L, self.S = L, S
         self.nmax = c.get("Nmax") or 2 * L + 3
@@ -194,6 +195,7 @@ def explore_config(c, seed, max_states=20000):
 def replay_ops(case, seed):
     ctx = Ctx(case["config"], seed)
     s = St(computers.clone(ctx.comp0), computers.clone(ctx.comp0), 0, False)
+    computers.poison(s.comp)
     viol = []
     for op in case["ops"]:
         s2, v, _ = _step(ctx, s, op)
